@@ -15,6 +15,7 @@ import (
 	"verifh/lib/hx"
 
 	"github.com/criyle/go-sandbox/container"
+	"github.com/criyle/go-sandbox/pkg/forkexec"
 	"github.com/criyle/go-sandbox/pkg/mount"
 	"github.com/criyle/go-sandbox/pkg/pipe"
 	"github.com/criyle/go-sandbox/runner"
@@ -36,6 +37,40 @@ func main() {
 	hx.Init()
 	scratch := os.Getenv("VERIF_SCRATCH")
 	hx.Cases(func(c map[string]any) map[string]any {
+		if c["mode"] == "raw_twice" {
+			// the raw mount sequence of the launcher, as a root caller without user namespace and without callback (the child shares the
+			// launcher's memory until it execs), started three times with the same prepared table
+			root, err := os.MkdirTemp(scratch, "rawroot")
+			if err != nil {
+				return map[string]any{"harness_err": err.Error()}
+			}
+			defer os.RemoveAll(root)
+			data, _ := os.MkdirTemp(scratch, "rawdata")
+			defer os.RemoveAll(data)
+			mt, err := mount.NewBuilder().WithBind(hx.BinDir(), "vb", true).WithBind(data, "data", true).WithTmpfs("w", "size=1m").Build()
+			if err != nil {
+				return map[string]any{"harness_err": err.Error()}
+			}
+			runs := []any{}
+			for k := 0; k < 3; k++ {
+				buf, _ := pipe.NewBuffer(1 << 20)
+				null, _ := os.Open("/dev/null")
+				r := &forkexec.Runner{Args: []string{"/vb/probe_target", "fsprobe", "/data", "/w"}, Env: []string{}, CloneFlags: unix.CLONE_NEWNS,
+					Mounts: mt, PivotRoot: root, WorkDir: "/", Files: []uintptr{null.Fd(), buf.W.Fd(), buf.W.Fd()}}
+				pid, err := r.Start()
+				null.Close()
+				buf.W.Close()
+				if err != nil {
+					runs = append(runs, map[string]any{"start_err": err.Error()})
+					continue
+				}
+				var ws syscall.WaitStatus
+				syscall.Wait4(pid, &ws, 0, nil)
+				<-buf.Done
+				runs = append(runs, map[string]any{"wait_status": int(ws), "probe": strings.TrimSpace(buf.Buffer.String())})
+			}
+			return map[string]any{"runs": runs}
+		}
 		if c["mode"] == "builder_alias" {
 			// one base table handed to two builders: neither may see the other's additions, the caller's slice stays as it was
 			show := func(ms []mount.Mount) []string {
